@@ -225,7 +225,11 @@ def r03d(model: Model, rr: RuleResult):
     if outer and isinstance(outer[0].target, ast.Tuple):
         b, gs = [norm(x) for x in outer[0].target.elts]
         inner = [st for st in outer[0].body if isinstance(st, ast.For) and norm(st.iter) == gs]
-        if inner and [norm(a) for a in de[0].args] == ["ufo", f"ufo[{norm(inner[0].target)}]", b]:
+        dfn = model.func("write_font", "_draw_glyph_extents")
+        from ..model import arg as _arg3
+        ga = _arg3(de[0], dfn.params.index("glyph"), "glyph") if "glyph" in dfn.params else None
+        ba = _arg3(de[0], dfn.params.index("bounds"), "bounds") if "bounds" in dfn.params else None
+        if inner and ga is not None and ba is not None and norm(ga) == f"ufo[{norm(inner[0].target)}]" and norm(ba) == b:
             ok = True
     if ok:
         rr.ok("every glyph of every clip-box group gets _draw_glyph_extents(ufo, ufo[name], its bounds)")
@@ -293,15 +297,26 @@ def r05a(model: Model, rr: RuleResult):
     if len(tb) != 1:
         raise AnalysisError("_bounds: _transformed_glyph_bounds call not found")
     _only_paintglyph_filter(fi, tb[0], rr, "clip box")
-    if [norm(a) for a in tb[0].args] == ["color_glyph.ufo", "paint_glyph.glyph", "context.transform"]:
+    # what is measured, read through the call: the glyph the callee draws and the transform it applies, in the caller's terms
+    from ..dataflow import in_caller_terms
+    tg = model.func("write_font", "_transformed_glyph_bounds")
+    tgcfg = cfg_of(tg)
+    draws = [c for c in calls_in(tg) if callee_tail(c) == "draw" and isinstance(c.func, ast.Attribute)]
+    tpen = [c for c in calls_in(tg) if norm(c.func) == "TransformPen" and len(c.args) == 2]
+    drawn = in_caller_terms(tg, tb[0], draws[0].func.value, tgcfg.node_for(draws[0])) if len(draws) == 1 else None
+    applied = in_caller_terms(tg, tb[0], tpen[0].args[1], tgcfg.node_for(tpen[0])) if len(tpen) == 1 else None
+    if drawn is not None and applied is not None and norm(drawn) == "color_glyph.ufo[paint_glyph.glyph]" and norm(applied) == "context.transform":
         at = cfg.node_for(tb[0])
         defs = cfg.reaching(at, "paint_glyph")
         if defs and all("context.paint" in norm(d.value) for d in defs):
             rr.ok("bounds of paint_glyph.glyph under context.transform of the same context")
         else:
             rr.bad(fi, tb[0], "paint_glyph is not this context's paint", construct="_bounds: paint_glyph definition")
-    else:
+    elif drawn is not None and applied is not None and ((norm(applied) != "context.transform" and norm(applied).endswith("transform")) or
+                                                         (norm(drawn).startswith("color_glyph.ufo[") and norm(drawn) != "color_glyph.ufo[paint_glyph.glyph]")):
         rr.bad(fi, tb[0], "glyph bounds are not computed for this context's glyph under this context's transform", construct=short(tb[0]))
+    else:
+        rr.bad_shape(fi, tb[0], "glyph bounds are not computed for this context's glyph under this context's transform", construct=short(tb[0]))
     outer = [st for st in walk_body(fi) if isinstance(st, ast.For) and norm(st.iter) == "color_glyph.painted_layers"]
     if outer:
         rr.ok("every root of painted_layers contributes")
@@ -344,15 +359,35 @@ def r05b(model: Model, rr: RuleResult):
         rr.ok("the untransformed shortcut is taken only for (almost) identity")
     else:
         rr.bad(fi, tp[0], f"transform is skipped under {facts}", construct=f"TransformPen under {facts}")
-    draw = [c for c in calls_in(fi) if callee_tail(c) == "draw"]
+    draw = [c for c in calls_in(fi) if callee_tail(c) == "draw" and isinstance(c.func, ast.Attribute) and len(c.args) == 1]
     ret = [st for st in walk_body(fi) if isinstance(st, ast.Return)]
-    if draw and norm(draw[0].args[0]) == "pen" and norm(draw[0].func.value) == "glyph" and ret and norm(ret[0].value) == "bounds_pen.bounds":
-        g = cfg.reaching(cfg.node_for(draw[0]), "glyph")
-        if g and all(norm(d.value) == "ufo[glyph_name]" for d in g):
-            rr.ok("the named glyph is drawn through the pen chain; the bounds pen's result is returned")
+    from ..dataflow import resolved as _res5
+    bpc = [c for c in calls_in(fi) if norm(c.func) == "ControlBoundsPen"]
+    # the name(s) the bounds pen is bound to
+    bnames = {t.id for st in walk_body(fi) if isinstance(st, ast.Assign) and bpc and st.value is bpc[0] for t in st.targets if isinstance(t, ast.Name)}
+    okd = False
+    if len(draw) == 1 and len(ret) == 1 and ret[0].value is not None and bnames:
+        dn = cfg.node_for(draw[0])
+        pen_arg = draw[0].args[0]
+        vals = []
+        if isinstance(pen_arg, ast.Name):
+            for d in cfg.reaching(dn, pen_arg.id):
+                vals.append(d.value)
         else:
+            vals.append(pen_arg)
+        pens_ok = bool(vals) and all(v is not None and ((isinstance(v, ast.Name) and v.id in bnames) or v is bpc[0] or
+                                                         (isinstance(v, ast.Call) and norm(v.func) == "TransformPen" and len(v.args) == 2 and norm(v.args[0]) in bnames)) for v in vals)
+        ret_ok = isinstance(ret[0].value, ast.Attribute) and ret[0].value.attr == "bounds" and norm(ret[0].value.value) in bnames
+        recv = _res5(cfg, dn, draw[0].func.value)
+        glyph_ok = (isinstance(recv, ast.Name) and recv.id in fi.params) or \
+            (isinstance(recv, ast.Subscript) and isinstance(recv.value, ast.Name) and recv.value.id in fi.params and isinstance(recv.slice, ast.Name) and recv.slice.id in fi.params)
+        if pens_ok and ret_ok and glyph_ok:
+            rr.ok("the named glyph is drawn through the pen chain; the bounds pen's result is returned")
+            okd = True
+        elif pens_ok and ret_ok:
             rr.bad(fi, fi.node, "the glyph drawn is not ufo[glyph_name]", construct="_transformed_glyph_bounds: glyph")
-    else:
+            okd = True
+    if not okd:
         rr.bad_shape(fi, fi.node, "glyph is not drawn through `pen` or the bounds pen's result is not returned", construct="_transformed_glyph_bounds: draw/return")
     bp = [c for c in calls_in(fi) if norm(c.func) == "ControlBoundsPen"]
     if bp:
@@ -410,14 +445,57 @@ def r05c(model: Model, rr: RuleResult):
     b = model.func("write_font", "_bounds")
     cfg = cfg_of(b)
     q = find_calls(b, "_quantize_bounding_rect")
-    rnd = [st for st in walk_body(b) if isinstance(st, ast.Assign) and "otRound(v) for v in bounds" in norm(st.value)]
-    if len(q) == 1 and rnd and cfg.dominates(cfg.node_for(rnd[0]), cfg.node_for(q[0])) and norm(q[0].args[0]) == "*bounds" and norm(kwarg(q[0], "factor")) == "quantize_factor":
-        rr.ok("all four values go through otRound (the compiler's rounding) before being quantised outward")
-    else:
-        rr.bad(b, b.node, "bounds are not otRound-ed before quantisation, or quantisation is not applied to them", construct="_bounds: otRound / quantise order")
-    fr = [st for st in walk_body(b) if isinstance(st, ast.Return) and st.value is not None and norm(st.value) == "bounds"]
-    if fr and cfg.dominates(cfg.node_for(rnd[0]), cfg.node_for(fr[0])) if rnd else False:
-        rr.ok("the unquantised return is the otRound-ed box")
+    from ..dataflow import resolved as _res, fold_tuples as _ft
+
+    def rounded_source(e):
+        """e denotes otRound applied element-wise to a sequence S: tuple(otRound(v) for v in S) / [..] / (..) -> text of S"""
+        if isinstance(e, ast.Call) and isinstance(e.func, ast.Name) and e.func.id in ("tuple", "list") and len(e.args) == 1:
+            e = e.args[0]
+        if isinstance(e, (ast.GeneratorExp, ast.ListComp)) and len(e.generators) == 1 and not e.generators[0].ifs and isinstance(e.elt, ast.Call) \
+                and callee_tail(e.elt) == "otRound" and len(e.elt.args) == 1 and norm(e.elt.args[0]) == norm(e.generators[0].target):
+            return norm(e.generators[0].iter)
+        return None
+
+    def box_source(at, exprs):
+        """the 4 values handed on: `*X` or four expressions -> text of the sequence whose otRound-ed elements they are, "" when they are not rounded, None when unread"""
+        if len(exprs) == 1 and isinstance(exprs[0], ast.Starred):
+            r = _ft(_res(cfg, at, exprs[0].value, depth=1))
+            return rounded_source(r) if rounded_source(r) is not None else ("" if isinstance(r, ast.Name) or "otRound" not in norm(r) else None)
+        if len(exprs) == 1:
+            r = _ft(_res(cfg, at, exprs[0], depth=1))
+            if isinstance(r, ast.Tuple) and len(r.elts) == 4:
+                exprs = r.elts
+            else:
+                return rounded_source(r) if rounded_source(r) is not None else ("" if "otRound" not in norm(r) else None)
+        if len(exprs) == 4:
+            srcs = set()
+            for i, x in enumerate(exprs):
+                r = _ft(_res(cfg, at, x, depth=1))
+                if isinstance(r, ast.Subscript) and isinstance(r.slice, ast.Constant) and r.slice.value == i and rounded_source(r.value) is not None:
+                    srcs.add(rounded_source(r.value))
+                elif isinstance(r, ast.Call) and callee_tail(r) == "otRound":
+                    srcs.add(None)
+                else:
+                    return "" if "otRound" not in norm(r) else None
+            return srcs.pop() if len(srcs) == 1 else None
+        return None
+    ok_q = False
+    if len(q) == 1 and kwarg(q[0], "factor") is not None and norm(kwarg(q[0], "factor")) == "quantize_factor":
+        src = box_source(cfg.node_for(q[0]), list(q[0].args))
+        if src:
+            rr.ok("all four values go through otRound (the compiler's rounding) before being quantised outward")
+            ok_q = True
+        elif src == "":
+            rr.bad(b, b.node, "bounds are not otRound-ed before quantisation, or quantisation is not applied to them", construct="_bounds: otRound / quantise order")
+            ok_q = None
+    if ok_q is False:
+        rr.bad_shape(b, b.node, "bounds are not otRound-ed before quantisation, or quantisation is not applied to them", construct="_bounds: otRound / quantise order")
+    for st in walk_body(b):
+        if isinstance(st, ast.Return) and st.value is not None and not (isinstance(st.value, ast.Call) and callee_tail(st.value) == "_quantize_bounding_rect") \
+                and not (isinstance(st.value, ast.Constant) and st.value.value is None):
+            src = box_source(cfg.node_for(st), [st.value])
+            if src:
+                rr.ok("the unquantised return is the otRound-ed box")
 
 
 @RULES.rule("C05", "R05d", "clip-box option plumbing: default step, per-glyph keys, v1 only, none for empty glyphs", floor=5)
